@@ -1161,9 +1161,23 @@ def eliminate_quantifiers_in_quantified_formula(
     # from which the nonterminal of the bound variable can be reached. In that case,
     # we don't know whether the formula holds. We can still instantiate all matches,
     # but have to keep the original formula.
-    keep_orig_formula = keep_existential_quantifiers or any(
-        graph.reachable(leaf.value, quantified_formula.bound_variable.n_type)
-        for _, leaf in quantified_formula.in_variable.open_leaves()
+    # The same holds if there is a match expression and an existing node of the type
+    # of the bound variable is still open: Whether it matches depends on how its open
+    # leaves are expanded.
+    keep_orig_formula = (
+        keep_existential_quantifiers
+        or any(
+            graph.reachable(leaf.value, quantified_formula.bound_variable.n_type)
+            for _, leaf in quantified_formula.in_variable.open_leaves()
+        )
+        or (
+            quantified_formula.bind_expression is not None
+            and any(
+                node.value == quantified_formula.bound_variable.n_type
+                and node.is_open()
+                for _, node in quantified_formula.in_variable.paths()
+            )
+        )
     )
 
     matches = [
